@@ -234,6 +234,118 @@ def gen_known(repo):
                 "Definition write_evlrs_guard : string := " + cs(guard) + ".\n"
                 "Definition write_evlrs_ops : list string := [\n  " + ";\n  ".join(cs(ast.unparse(n)) for n in block) + "].\n")
     o.add("writer", writer_ops)
+
+    # ---- the header re-synchronising its extra-bytes record: what it does to the VLR list, and who triggers it ----
+    def mentions_vlrs(n):
+        return any(isinstance(x, ast.Attribute) and x.attr in ("_vlrs", "vlrs") and ast.unparse(x.value) == "self" for x in ast.walk(n))
+
+    def extracted_class(stmt, what):
+        """the class name of `self.<list>.extract('<Name>')`"""
+        c = stmt.value if isinstance(stmt, ast.Expr) else None
+        if not (isinstance(c, ast.Call) and isinstance(c.func, ast.Attribute) and c.func.attr == "extract" and len(c.args) == 1
+                and not c.keywords and isinstance(c.args[0], ast.Constant) and isinstance(c.args[0].value, str)
+                and ast.unparse(c.func.value) in ("self._vlrs", "self.vlrs")):
+            raise py2v.Untranslatable(f"{what}: expected self._vlrs.extract('<class name>'), found {ast.unparse(stmt)}")
+        return c.args[0].value
+
+    def sync_ops():
+        mod = py2v.parse(repo, "laspy/header.py")
+        cls = py2v.find_class(mod, "LasHeader")
+        fn = py2v.find_func(cls, "_sync_extra_bytes_vlr")
+        body = [n for n in fn.body if not is_doc(n) and not is_log(n)]
+        # first statement: the stale record(s) taken out of the list, by class, under a try that only passes
+        first = body[0] if body else None
+        if not (isinstance(first, ast.Try) and len(first.body) == 1 and not first.orelse and not first.finalbody
+                and all(len(h.body) == 1 and isinstance(h.body[0], ast.Pass) for h in first.handlers)):
+            raise py2v.Untranslatable("_sync_extra_bytes_vlr: does not start with try: self._vlrs.extract(..) except ..: pass")
+        name = extracted_class(first.body[0], "_sync_extra_bytes_vlr")
+        touching = [n for n in simple_statements(fn) if mentions_vlrs(n)]
+        texts = [ast.unparse(n) for n in touching]
+        # everything else that touches the list: one append of a record built by ExtraBytesVlr()
+        if len(touching) != 2 or not isinstance(touching[1], ast.Expr) or not isinstance(touching[1].value, ast.Call):
+            raise py2v.Untranslatable(f"_sync_extra_bytes_vlr: statements on the VLR list are not [extract, append]: {texts}")
+        ap = touching[1].value
+        if not (isinstance(ap.func, ast.Attribute) and ap.func.attr == "append" and ast.unparse(ap.func.value) in ("self._vlrs", "self.vlrs")
+                and len(ap.args) == 1 and isinstance(ap.args[0], ast.Name)):
+            raise py2v.Untranslatable(f"_sync_extra_bytes_vlr: the list is not appended to by self._vlrs.append(<name>): {texts[1]}")
+        var = ap.args[0].id
+        made = [ast.unparse(n.value) for n in ast.walk(fn) if isinstance(n, ast.Assign) and len(n.targets) == 1
+                and isinstance(n.targets[0], ast.Name) and n.targets[0].id == var]
+        if made != ["ExtraBytesVlr()"]:
+            raise py2v.Untranslatable(f"_sync_extra_bytes_vlr: the appended record is not built by ExtraBytesVlr(): {made}")
+        # the append must be the last statement of the function, outside any loop / condition
+        if fn.body[-1] is not touching[1]:
+            raise py2v.Untranslatable("_sync_extra_bytes_vlr: the append is not the last statement")
+        # the only way out before it: `if not extra_dimensions: return`
+        rets = [n for n in ast.walk(fn) if isinstance(n, ast.Return)]
+        guards = [n for n in body if isinstance(n, ast.If) and len(n.body) == 1 and isinstance(n.body[0], ast.Return) and not n.orelse]
+        if len(rets) != 1 or len(guards) != 1 or guards[0].body[0] is not rets[0] or ast.unparse(guards[0].test) != "not extra_dimensions":
+            raise py2v.Untranslatable("_sync_extra_bytes_vlr: early exits other than `if not extra_dimensions: return`")
+        # the vlrs setter
+        st = py2v.find_func(cls, "vlrs", decorator="vlrs.setter")
+        sst = [n for n in simple_statements(st) if not is_log(n)]
+        stexts = [ast.unparse(n) for n in sst]
+        if len(sst) != 3 or stexts[0] != "self._vlrs = VLRList(vlrs)" or stexts[2] != "self._sync_extra_bytes_vlr()":
+            raise py2v.Untranslatable(f"LasHeader.vlrs setter: unexpected statements {stexts}")
+        tries = [n for n in ast.walk(st) if isinstance(n, ast.Try)]
+        if any(not isinstance(b, ast.Pass) for t in tries for h in t.handlers for b in h.body) or any(t.orelse or t.finalbody for t in tries):
+            raise py2v.Untranslatable("LasHeader.vlrs setter: an exception handler that does more than pass")
+        sname = extracted_class(sst[1], "LasHeader.vlrs setter")
+        return ("(* LasHeader._sync_extra_bytes_vlr: the class whose records are taken out of the VLR list (VLRList.extract),\n"
+                "   every statement that touches the list, in source order; a record built from the point format is appended\n"
+                "   unless there are no extra dimensions *)\n"
+                "Definition sync_extracted_class : string := " + cs(name) + ".\n"
+                "Definition sync_list_ops : list string := [\n  " + ";\n  ".join(cs(x) for x in texts) + "].\n\n"
+                "(* LasHeader.vlrs setter: its statements; the class name it hands to extract *)\n"
+                "Definition vlrs_setter_extracts : string := " + cs(sname) + ".\n"
+                "Definition vlrs_setter_ops : list string := [\n  " + ";\n  ".join(cs(x) for x in stexts) + "].\n")
+    o.add("sync", sync_ops)
+
+    def resync_methods():
+        """the methods and property setters of LasHeader from which _sync_extra_bytes_vlr is reached (calls self.m(..) and
+        assignments self.p = .. to a property with a setter, transitively)"""
+        mod = py2v.parse(repo, "laspy/header.py")
+        cls = py2v.find_class(mod, "LasHeader")
+        setters, funcs = {}, {}
+        for n in cls.body:
+            if isinstance(n, ast.FunctionDef):
+                decs = [ast.unparse(d) for d in n.decorator_list]
+                if any(d.endswith(".setter") for d in decs):
+                    setters[n.name] = n
+                elif "property" not in decs:
+                    funcs[n.name] = n
+        nodes = {("m", k): v for k, v in funcs.items()}
+        nodes.update({("s", k): v for k, v in setters.items()})
+
+        def edges(fn):
+            out = set()
+            for x in ast.walk(fn):
+                if isinstance(x, ast.Call) and isinstance(x.func, ast.Attribute) and ast.unparse(x.func.value) == "self" and x.func.attr in funcs:
+                    out.add(("m", x.func.attr))
+                if isinstance(x, (ast.Assign, ast.AugAssign, ast.AnnAssign)):
+                    for t in (x.targets if isinstance(x, ast.Assign) else [x.target]):
+                        if isinstance(t, ast.Attribute) and ast.unparse(t.value) == "self" and t.attr in setters:
+                            out.add(("s", t.attr))
+            return out
+        graph = {k: edges(v) for k, v in nodes.items()}
+        target = ("m", "_sync_extra_bytes_vlr")
+        if target not in nodes:
+            raise py2v.Untranslatable("LasHeader._sync_extra_bytes_vlr not found")
+        reach = {target}
+        changed = True
+        while changed:
+            changed = False
+            for k, es in graph.items():
+                if k not in reach and es & reach:
+                    reach.add(k)
+                    changed = True
+        names = sorted({k[1] for k in reach if k != target})
+        clash = [n for n in names if ("m", n) in nodes and ("s", n) in nodes]
+        if clash:
+            raise py2v.Untranslatable(f"LasHeader: {clash} name both a method and a property setter")
+        return ("(* LasHeader: the methods / property setters that end in _sync_extra_bytes_vlr (call graph inside the class) *)\n"
+                "Definition resync_methods : list string := [" + "; ".join(cs(x) for x in names) + "].\n")
+    o.add("resync_methods", resync_methods)
     return o
 
 
